@@ -335,7 +335,7 @@ def main(argv=None):
 
     # ---- minimise new buckets (property-specific), write replay files
     lines = []
-    fdir = os.path.join(ROOT, "failures", prop)
+    fdir = os.path.join(os.environ.get("VERIF_FAILURES_DIR") or os.path.join(ROOT, "failures"), prop)   # override: experiments only
     for sig, (size, detail, case) in sorted(out_vios.items()):
         if hasattr(mod, "minimise"):
             try:
